@@ -10,6 +10,7 @@ using namespace lk;
 
 namespace lk {
 std::function<void()>* g_hold[8];
+WInfo g_winfo[4];
 void* g_other = nullptr;
 }
 
@@ -47,6 +48,7 @@ void body(const Prog& p)
     hx::win_reset();
     for (auto& h : lk::g_hold) h = nullptr;
     size_t base_blocks = live_blocks();
+    for (auto& e : lk::g_winfo) e = lk::WInfo{};  // executions can be abandoned before destroy()
     void* w = in.create();
     bool need_other = false;
     for (auto& t : p.threads)
@@ -93,7 +95,7 @@ void body(const Prog& p)
     MC_CHECK(m == nullptr, "not-linearizable", "%s", m);
     // the final stored value agrees with the object itself
     const Pair* obj = in.obj_addr(w);
-    MC_CHECK(obj->a == obj->b, "torn-final", "wrapped object ends half-written (a=%d b=%d)", obj->a, obj->b);
+    if (obj) MC_CHECK(obj->a == obj->b, "torn-final", "wrapped object ends half-written (a=%d b=%d)", obj->a, obj->b);
     uint64_t o = 0;
     for (int i = 0; i < g_nhist; i++) o = o * 131 + (uint64_t)(g_hist[i].res * 4 + g_hist[i].ok);
     observe(o);
